@@ -24,12 +24,12 @@ def main(argv):
         env = dict(os.environ)
         env["PYTHONHASHSEED"] = "0"
         os.execve(sys.executable, [sys.executable, os.path.abspath(__file__)] + argv, env)
+    replay = None
     if len(argv) >= 2 and argv[0] == "--replay":
         with open(argv[1]) as f:
-            r = json.load(f)
-        print("replaying property %s rule %s instance %s" % (r["property"], r["rule"], r["key"]))
-        os.environ["VERIF_ONLY_RULE"] = r["rule"]
-        argv = [r["property"]]
+            replay = json.load(f)
+        print("replaying property %s rule %s instance %s" % (replay["property"], replay["rule"], replay["key"]))
+        argv = [replay["property"]]
     if not argv:
         print(__doc__)
         return 2
@@ -61,6 +61,18 @@ def main(argv):
         import thorough
 
         thorough.run_fixtures(ctx, prop)
+    if replay is not None:
+        # re-evaluate that single rule instance on the current tree and show the construct
+        hits = [f for f in ctx.findings if f.rule == replay["rule"] and f.key == replay["key"]]
+        if not hits:
+            print("the instance no longer exists on the current tree (rule %s, key %s)" % (replay["rule"], replay["key"]))
+            return 0
+        rc = 0
+        for f in hits:
+            print("%s  %s  at %s\n   %s" % (f.status.upper(), f.full_key(), f.site or "?", f.what))
+            if f.status == "violation":
+                rc = 1
+        return rc
     cmd = "python3 sa/check.py %s --tier %s" % (prop, tier)
     return finish(ctx, mod.LEVEL, t0, mod.EXPLANATION, mod.TRUSTED, cmd, seed=seed)
 
